@@ -1,10 +1,14 @@
 mod c40;
+mod c41;
 mod c42;
+mod c43;
 use vkit::{Check, Level};
 fn main() {
     let checks: &[Check] = &[
         Check { id: "C40", level: Level::Exploration, run: c40::run },
+        Check { id: "C41", level: Level::Exploration, run: c41::run },
         Check { id: "C42", level: Level::ModelChecking, run: c42::run },
+        Check { id: "C43", level: Level::Exploration, run: c43::run },
     ];
     vkit::main(checks);
 }
